@@ -1,11 +1,10 @@
-//! C04 in the reverse direction: arbitrary bytes -> every decoder that accepts them must
-//! re-encode to bytes that decode to the same packet (oracle `roundtrip_from_bytes`).
+//! libFuzzer front end of the `roundtrip` target; decoding and oracle live in the harness library
+//! (harness/src/fuzzdec.rs) so that a crashing input can be replayed through `vcheck --replay`.
 #![no_main]
 use libfuzzer_sys::fuzz_target;
 
 fuzz_target!(|data: &[u8]| {
-    let accepted = std::cell::Cell::new(0u32);
-    if let Err(f) = vcheck::codec::oracle::roundtrip_from_bytes(data, &accepted) {
-        panic!("C04 violated: {} :: {}", f.signature, f.detail);
+    if let Err(f) = vcheck::fuzzdec::run_target("roundtrip", data) {
+        panic!("property violated: {} :: {}", f.signature, f.detail);
     }
 });
